@@ -490,4 +490,6 @@ def check(fx, rep, tier):
                       'variant %s (%s attempt) is returned as %s(%s)%s - expected %s(%s)' % (name, role, outer, inner, '' if payload_used or not want[2] else ' without its own payload', want[0], want[1]),
                       {'outer': outer, 'inner': inner, 'payload_is_variant_payload': payload_used})
         rep.floor('R04.4', 3, 'match arms')
+    import imports as _imp
+    _imp.layer(fx, rep, 'C04')
     return META
